@@ -111,7 +111,13 @@ fn child(args: &[String]) {
         if nontrivial(&case) {
             hashes.insert(case.hash64());
         }
-        *arities.entry(case.clauses.max_arity()).or_insert(0) += 1;
+        {
+            let mut present = std::collections::BTreeSet::new();
+            case.clauses.arities(&mut present);
+            for a in present {
+                *arities.entry(a).or_insert(0) += 1;
+            }
+        }
         if samples.len() < 3 && nontrivial(&case) && index % 7 == 3 {
             samples.push(format!("{case}"));
         }
